@@ -1,22 +1,28 @@
 #!/usr/bin/env python3
-"""try_mutant.py <patch-or-outdir> <Cnn> [<Cnn>...]: applies a seeded change to /repo, runs the
-given checks (quick tier, VERIF_BUDGET_S or 40 s), restores /repo. Prints one line per check:
-CAUGHT (exit 1 with VIOLATION), MISSED (exit 0), or TROUBLE (other)."""
-import json, os, subprocess, sys
+"""try_mutant.py <outdir-or-patch> <Cnn> [<Cnn>...]: runs the given checks (quick tier,
+VERIF_BUDGET_S or 40 s) against a seeded change. The change is applied in a throw-away git
+worktree of /repo under /tmp (KEVO_REPO points run.py at it; evidence and replays of these runs go
+to a temporary directory), so /repo itself and concurrent runs are not disturbed - the effect is the
+same as `git -C /repo apply` + run + `git -C /repo checkout -- .`.
+Prints one line per check: CAUGHT (exit 1 with VIOLATION), MISSED (exit 0), or TROUBLE."""
+import json, os, shutil, subprocess, sys, tempfile
 src = sys.argv[1]
 patch = src if src.endswith(".diff") else os.path.join(src, "patch.diff")
 checks = sys.argv[2:]
-def git(*a):
-    return subprocess.run(["git", "-C", "/repo"] + list(a), capture_output=True, text=True)
-st = git("status", "--porcelain").stdout.strip()
-if st:
-    print("/repo is not clean:", st); sys.exit(2)
-r = git("apply", patch)
+wt = tempfile.mkdtemp(prefix="kevo-mutant.", dir="/tmp")
+os.rmdir(wt)
+def git(*a, cwd="/repo"):
+    return subprocess.run(["git", "-C", cwd] + list(a), capture_output=True, text=True)
+r = git("worktree", "add", "--detach", wt, "HEAD")
 if r.returncode != 0:
-    print("patch does not apply:", r.stderr); sys.exit(2)
+    print("cannot create worktree:", r.stderr); sys.exit(2)
 results = {}
+tmp = tempfile.mkdtemp(prefix="kevo-mutant-out.", dir="/tmp")
 try:
-    env = dict(os.environ)
+    r = git("apply", os.path.abspath(patch), cwd=wt)
+    if r.returncode != 0:
+        print("patch does not apply:", r.stderr); sys.exit(2)
+    env = dict(os.environ, KEVO_REPO=wt, VERIF_EVIDENCEDIR=os.path.join(tmp, "evidence"), VERIF_REPLAYDIR=os.path.join(tmp, "replays"))
     env.setdefault("VERIF_BUDGET_S", "40")
     for c in checks:
         p = subprocess.run(["python3", "/verif/run.py", c, "quick"], cwd="/verif", env=env, capture_output=True, text=True)
@@ -28,11 +34,9 @@ try:
             results[c] = "MISSED"
         else:
             results[c] = "TROUBLE rc=%d %s" % (p.returncode, out[-400:].replace("\n", " | "))
-        print(os.path.basename(os.path.dirname(patch)) or patch, c, results[c][:300], flush=True)
+        print(os.path.basename(os.path.dirname(os.path.abspath(patch))), c, results[c][:300], flush=True)
 finally:
-    git("checkout", "--", ".")
-    git("clean", "-fdq", "pkg", "cmd", "proto")
-    # evidence written during mutant runs must not be kept
-    subprocess.run(["git", "-C", "/verif", "checkout", "--", "evidence"], capture_output=True)
+    git("worktree", "remove", "--force", wt)
+    shutil.rmtree(tmp, ignore_errors=True)
 if not src.endswith(".diff"):
     json.dump(results, open(os.path.join(src, "check_results.json"), "w"), indent=1)
